@@ -16,7 +16,7 @@ QUICK = {'budget_s': 40}
 THOROUGH = {'budget_s': 480}
 EXPECTED_PROBES = ['abort_runs', 'abort_changed_invocations', 'abort_between_phases', 'abort_during_teardown_phase', 'abort_during_abortable_phase']
 
-PROF = gen.profile(max_nodes=14, max_depth=4, w_phase=8, w_group=7, w_subtest=3, w_branch=2, w_ckpt_fail=1, w_ckpt_diag=1, p_fault_beh=300, p_timeout=60, p_dur=350, abort=700, sigint=250, p_plug=150, p_test_start=100, p_profile=350)
+PROF = gen.profile(max_nodes=14, max_depth=4, w_phase=8, w_group=7, w_subtest=3, w_branch=2, w_ckpt_fail=1, w_ckpt_diag=1, p_fault_beh=300, p_timeout=60, p_dur=350, abort=700, sigint=250, p_plug=150, p_test_start=100, p_profile=350, p_monitor=100)
 
 
 def setup():
